@@ -6,7 +6,6 @@ import (
 	"fmt"
 	"runtime"
 	"sort"
-	"strings"
 
 	tel "github.com/nginx/telemetry-exporter/pkg/telemetry"
 	appsv1 "k8s.io/api/apps/v1"
@@ -450,22 +449,140 @@ func collectSnippetsFilterDirectives(g *graph.Graph) ([]string, []int64) {
 	return parseDirectiveContextMapIntoLists(directiveContextMap)
 }
 
+// parseSnippetValueIntoDirectives returns the names of the NGINX directives of a snippet: the first word of
+// every statement at nesting depth 0. It tokenizes the snippet the way NGINX does (ngx_conf_read_token), so that
+// arguments, quoted strings, comments and the contents of nested blocks are never mistaken for directive names.
 func parseSnippetValueIntoDirectives(snippetValue string) []string {
-	separatedDirectives := strings.Split(snippetValue, ";")
-	directives := make([]string, 0, len(separatedDirectives))
+	const (
+		gap = iota
+		comment
+		bare
+		dquoted
+		squoted
+	)
 
-	for _, directive := range separatedDirectives {
-		// the strings.TrimSpace is needed in the case of multi-line NGINX Snippet values
-		directive = strings.Split(strings.TrimSpace(directive), " ")[0]
+	directives := make([]string, 0)
+	var word []rune
+	state, depth := gap, 0
+	escaped, variable, atStart := false, false, true
 
-		// splitting on the delimiting character can result in a directive being empty or a space/newline character,
-		// so we check here to ensure it's not
-		if directive != "" {
-			directives = append(directives, directive)
+	endWord := func() {
+		if depth == 0 && atStart {
+			directives = append(directives, unescapeNginxWord(word))
+		}
+		atStart = false
+		word = word[:0]
+	}
+	punct := func(ch rune) {
+		switch ch {
+		case '{':
+			depth++
+		case '}':
+			if depth > 0 {
+				depth--
+			}
+		}
+		atStart = true
+	}
+	isSpace := func(ch rune) bool { return ch == ' ' || ch == '\t' || ch == '\r' || ch == '\n' }
+
+	for _, ch := range snippetValue {
+		switch state {
+		case gap:
+			switch {
+			case isSpace(ch):
+			case ch == ';' || ch == '{' || ch == '}':
+				punct(ch)
+			case ch == '#':
+				state = comment
+			case ch == '"':
+				state, escaped = dquoted, false
+			case ch == '\'':
+				state, escaped = squoted, false
+			default:
+				state, escaped, variable = bare, ch == '\\', ch == '$'
+				word = append(word, ch)
+			}
+		case comment:
+			if ch == '\n' {
+				state = gap
+			}
+		case bare:
+			switch {
+			case escaped:
+				escaped = false
+				word = append(word, ch)
+			case ch == '{' && variable:
+				word = append(word, ch)
+			case ch == '\\':
+				escaped, variable = true, false
+				word = append(word, ch)
+			case ch == '$':
+				variable = true
+				word = append(word, ch)
+			case isSpace(ch):
+				endWord()
+				state = gap
+			case ch == ';' || ch == '{':
+				endWord()
+				punct(ch)
+				state = gap
+			default:
+				variable = false
+				word = append(word, ch)
+			}
+		case dquoted, squoted:
+			switch {
+			case escaped:
+				escaped = false
+				word = append(word, ch)
+			case ch == '\\':
+				escaped = true
+				word = append(word, ch)
+			case (state == dquoted && ch == '"') || (state == squoted && ch == '\''):
+				endWord()
+				state = gap
+			default:
+				word = append(word, ch)
+			}
 		}
 	}
 
+	if state == bare || state == dquoted || state == squoted {
+		endWord()
+	}
+
 	return directives
+}
+
+// unescapeNginxWord processes the escape sequences NGINX understands in a configuration word.
+func unescapeNginxWord(word []rune) string {
+	out := make([]rune, 0, len(word))
+	for i := 0; i < len(word); i++ {
+		if word[i] == '\\' && i+1 < len(word) {
+			switch word[i+1] {
+			case '"', '\'', '\\':
+				out = append(out, word[i+1])
+				i++
+				continue
+			case 't':
+				out = append(out, '\t')
+				i++
+				continue
+			case 'r':
+				out = append(out, '\r')
+				i++
+				continue
+			case 'n':
+				out = append(out, '\n')
+				i++
+				continue
+			}
+		}
+		out = append(out, word[i])
+	}
+
+	return string(out)
 }
 
 // parseDirectiveContextMapIntoLists returns two same-length lists where the elements at each corresponding index
